@@ -42,7 +42,7 @@ def riffHeaderSize : Nat := 12
 def anmfChunkSize : Nat := 16
 def animChunkSize : Nat := 6
 def vp8xChunkSize : Nat := 10
-def maxChunkPayload : Nat := 4294967295 - 8 - 1
+def maxChunkPayload : Nat := 4294967286
 def maxImageArea : Nat := 1073741824
 def maxFrames : Nat := 10000
 def maxChunks : Nat := 1000
